@@ -76,7 +76,7 @@ DivergeAt(r) == {j \in DOMAIN r.combos : Diverges(r, j)}
 
 Next == /\ i <= Len(Rows)
         /\ \A f \in Minimal(Findings(R)) : PrintT(<<"VERDICT", R.id, f[1], f[3], f[2]>>)
-        /\ LET dv == DivergeAt(R) IN dv = {} \/ PrintT(<<"DIVERGE", R.id, Cardinality(dv)>>)
+        /\ LET dv == DivergeAt(R) IN IF dv = {} THEN TRUE ELSE PrintT(<<"DIVERGE", R.id, Cardinality(dv)>>)
         /\ i' = i + 1
 Spec == Init /\ [][Next]_i
 Done == PrintT(<<"DONE", Len(Rows), TLCGet("stats").diameter>>)
